@@ -647,7 +647,7 @@ end Shift
 
 /-! ## the solver over `ℝ` -/
 
-theorem tableOK_get : ∀ (es : List PInfo) (xs : List (InfoSt ℝ)), TableOK es xs →
+theorem tableOK_get_ss : ∀ (es : List PInfo) (xs : List (InfoSt ℝ)), TableOK es xs →
     ∀ (i : ℕ) (e : PInfo), es[i]? = some e → ∃ x, xs[i]? = some x ∧ InfoOK e.actions.length x
   | [], [], _, i, e, he => by simp at he
   | e' :: es, y :: xs, h, 0, e, he => by
@@ -658,11 +658,11 @@ theorem tableOK_get : ∀ (es : List PInfo) (xs : List (InfoSt ℝ)), TableOK es
   | e' :: es, y :: xs, h, i + 1, e, he => by
     simp only [TableOK] at h
     simp only [List.getElem?_cons_succ] at he ⊢
-    exact tableOK_get es xs h.2 i e he
+    exact tableOK_get_ss es xs h.2 i e he
   | [], _ :: _, h, _, _, _ => by simp [TableOK] at h
   | _ :: _, [], h, _, _, _ => by simp [TableOK] at h
 
-theorem tableOK_get' : ∀ (es : List PInfo) (xs : List (InfoSt ℝ)), TableOK es xs →
+theorem tableOK_get_ss' : ∀ (es : List PInfo) (xs : List (InfoSt ℝ)), TableOK es xs →
     ∀ (i : ℕ) (x : InfoSt ℝ), xs[i]? = some x → ∃ e, es[i]? = some e ∧ InfoOK e.actions.length x
   | [], [], _, i, x, hx => by simp at hx
   | e' :: es, y :: xs, h, 0, x, hx => by
@@ -673,7 +673,7 @@ theorem tableOK_get' : ∀ (es : List PInfo) (xs : List (InfoSt ℝ)), TableOK e
   | e' :: es, y :: xs, h, i + 1, x, hx => by
     simp only [TableOK] at h
     simp only [List.getElem?_cons_succ] at hx ⊢
-    exact tableOK_get' es xs h.2 i x hx
+    exact tableOK_get_ss' es xs h.2 i x hx
   | [], _ :: _, h, _, _, _ => by simp [TableOK] at h
   | _ :: _, [], h, _, _, _ => by simp [TableOK] at h
 
@@ -683,7 +683,7 @@ theorem ctxFits_of_stOK (g : Game ℝ) (s : SolveSt ℝ) (hs : StOK g s) (draw :
   ch := rfl
   strat := by
     intro one i e he
-    obtain ⟨x, hx, hok⟩ := tableOK_get _ _ (hs one) i e he
+    obtain ⟨x, hx, hok⟩ := tableOK_get_ss _ _ (hs one) i e he
     show (s.strat one i).length = _ ∧ (s.strat one i).sum = 1
     rw [strat_of_get s one i x hx]
     exact ⟨hok.lenσ, hok.dist.2⟩
@@ -698,7 +698,7 @@ theorem vanillaIter_shift (k : ℝ) (g : Game ℝ) (hg : GameWF g) (p : RegretPa
       = s.applyEffs (vrec ⟨g.chance, false, s.strat, draw, it - 1⟩ g.root 1 1 1 { log := log }).2.1 := by
     apply applyEffs_congr
     · intro one I x hx
-      obtain ⟨e, _, hok⟩ := tableOK_get' _ _ (hs one) I x hx
+      obtain ⟨e, _, hok⟩ := tableOK_get_ss' _ _ (hs one) I x hx
       rw [hok.lenR, hok.lenσ]
     · intro me I slot a ha
       exact (vrec_shift k g (fun ps hps => (hg.chancePos ps hps).2) _ hc me I slot a ha g.root 1 1 1 _
